@@ -51,6 +51,8 @@ class Ctx:
         self.functions_analysed: set = set()
         self.call_sites = 0
         self.notes: List[str] = []
+        self.errors: List = []
+        self.shared: Dict = {}
         self.current_rule = None
 
     # -- rule bookkeeping
@@ -85,6 +87,14 @@ class Ctx:
 
     def note(self, text: str):
         self.notes.append(text)
+
+    def run(self, fn, *args, **kw):
+        """Run one rule function; an AnalysisError is recorded (the rule is undecided) and the other rules still run."""
+        try:
+            return fn(self, *args, **kw)
+        except AnalysisError as e:
+            self.errors.append((self.current_rule or getattr(fn, "__name__", "?"), f"{type(e).__name__}: {e}"))
+            return None
 
     # -- summaries
     def violations(self) -> List[Result]:
